@@ -268,9 +268,9 @@ fn section_dnm(out: &mut Out, r: &mut Rng, th: bool) {
     if d != DenseNatMap::new() || d.len() != 0 || d.get(Id::from(0)).is_some() || d.iter().next().is_some() {
         out.v("dnm-default", &format!("default() is not the empty map: {:?}", d));
     }
-    let n = if th { 30_000 } else { 3_000 };
+    let n = if th { 40_000 } else { 4_000 };
     for c in 0..n {
-        let len = if r.chance(1, 12) { 0 } else { r.below(8) };
+        let len = if r.chance(1, 20) { 0 } else { 1 + r.below(7) };
         let vs: Vec<u32> = (0..len).map(|_| r.below(50) as u32).collect();
         let how = r.below(BUILDS);
         if c % 2 == 0 {
@@ -344,7 +344,7 @@ fn reindex_case(out: &mut Out, r: &mut Rng, plan: &IdPlan, tag: &str) {
 }
 
 fn section_plans(out: &mut Out, r: &mut Rng, th: bool) {
-    let n = if th { 30_000 } else { 3_000 };
+    let n = if th { 40_000 } else { 4_000 };
     for c in 0..n {
         // ---- From<DenseNatMap<R, V>> / From<&DenseNatMap<R, V>>
         let plen = if r.chance(1, 15) { 0 } else { r.below(9) };
@@ -559,7 +559,7 @@ fn dedup<T: El>(xs: Vec<T>) -> Vec<T> {
     o
 }
 fn gen_elems<T: El>(r: &mut Rng) -> Vec<T> {
-    let n = if r.chance(1, 10) { 0 } else { r.below(7) };
+    let n = if r.chance(1, 20) { 0 } else { 1 + r.below(6) };
     dedup((0..n).map(|_| T::gen(r)).collect())
 }
 /// a list related to `xs`: same contents in another order, one element more / fewer / replaced, or fresh
@@ -800,7 +800,7 @@ fn map_cases<K: El, V: El>(out: &mut Out, r: &mut Rng, n: usize) {
 }
 
 fn section_hash(out: &mut Out, r: &mut Rng, th: bool) {
-    let n = if th { 12_000 } else { 1_200 };
+    let n = if th { 20_000 } else { 2_000 };
     set_cases::<u8>(out, r, n);
     set_cases::<String>(out, r, n);
     set_cases::<Id>(out, r, n);
@@ -993,6 +993,7 @@ fn section_choices(out: &mut Out, r: &mut Rng, th: bool) {
 fn main() {
     quiet_panics();
     let mut out = Out::new();
+    out.max_samples = 14;
     let mut r = Rng::new(seed());
     let th = thorough();
     section_dnm(&mut out, &mut r, th);
